@@ -57,17 +57,202 @@ fn run_once(f: &exec::MainFn, input: &[u64]) -> (String, Vec<String>) {
     (v.show(), log)
 }
 
+// ---------------------------------------------------------------------------
+// shared list arguments: the same handles called from several threads with the same
+// two lists in both argument orders
+// ---------------------------------------------------------------------------
+
+const SHARED_SRC: &str = "fn cc(a: List[u64], b: List[u64]) -> u64 {\n    a.concat(b).len()\n}\n\nfn eq(a: List[u64], b: List[u64]) -> bool {\n    a == b\n}\n\nfn has(a: List[u64], b: List[u64]) -> bool {\n    match b.get(0) {\n        Some(x) => a.contains(x),\n        None => false,\n    }\n}\n\nfn plus(a: List[u64], b: List[u64]) -> u64 {\n    (a + b + a).len()\n}\n";
+
+static DELAY_SEED: AtomicU64 = AtomicU64::new(1);
+
+/// Delay injection at the lock-acquisition hook of the list code: now and then a thread
+/// that is about to take a list lock yields or sleeps for a moment.
+fn delay_hook(ev: &roto::verif::ListEvent<'_>) {
+    if let roto::verif::ListEvent::BeforeLock { .. } = ev {
+        let x = DELAY_SEED.fetch_add(0x9E37_79B9_7F4A_7C15, Ordering::Relaxed);
+        let h = (x ^ (x >> 29)).wrapping_mul(0xBF58_476D_1CE4_E5B9) >> 58;
+        match h {
+            0..=5 => std::thread::yield_now(),
+            6 => std::thread::sleep(std::time::Duration::from_micros(50)),
+            _ => {}
+        }
+    }
+}
+
+type F2u = roto::TypedFunc<NoCtx, fn(roto::List<u64>, roto::List<u64>) -> u64>;
+type F2b = roto::TypedFunc<NoCtx, fn(roto::List<u64>, roto::List<u64>) -> bool>;
+
+impl Concurrent {
+    fn shared_lists(&mut self, rng: &mut Rng, args: &Args) -> CaseOut {
+        let mut out = CaseOut::default();
+        out.hash = hash_str(SHARED_SRC) ^ rng.next();
+        out.sample = Some(J::obj().set("profile", "shared-lists").set("source", SHARED_SRC));
+        out.tags.push("profile:shared-lists".into());
+        let mut pkg = match catch(|| exec::compile(SHARED_SRC, &self.rt)) {
+            Ok(Ok(p)) => p,
+            Ok(Err(e)) => {
+                out.viol("concurrent:shared-lists-script-rejected", e.lines().next().unwrap_or("").to_string(), J::Null);
+                return out;
+            }
+            Err(p) => {
+                out.viol(format!("concurrent:compile-{}", panic_sig(&p)), p, J::Null);
+                return out;
+            }
+        };
+        let get_u = |pkg: &mut roto::Package<NoCtx>, n: &str| -> Option<F2u> { pkg.get_function::<fn(roto::List<u64>, roto::List<u64>) -> u64>(n).ok() };
+        let (Some(cc), Some(plus)) = (get_u(&mut pkg, "cc"), get_u(&mut pkg, "plus")) else {
+            out.skipped = Some("shared-lists:no-function".into());
+            return out;
+        };
+        let get_b = |pkg: &mut roto::Package<NoCtx>, n: &str| -> Option<F2b> { pkg.get_function::<fn(roto::List<u64>, roto::List<u64>) -> bool>(n).ok() };
+        let (Some(eq), Some(has)) = (get_b(&mut pkg, "eq"), get_b(&mut pkg, "has")) else {
+            out.skipped = Some("shared-lists:no-function".into());
+            return out;
+        };
+        // long lists keep a thread inside a critical section for a while; short ones make
+        // the acquisitions frequent
+        let n = *rng.pick(&[0usize, 3, 64, 20_000, 200_000]);
+        let x: roto::List<u64> = (0..n as u64).collect();
+        let y: roto::List<u64> = (0..n as u64 + 1).collect();
+        out.tags.push(format!("shared-lists:len:{n}"));
+        let with_delays = rng.bool();
+        out.tags.push(format!("shared-lists:injected-delays:{with_delays}"));
+        let n_threads = *rng.pick(&[2usize, 2, 3, 4, 8]);
+        out.tags.push(format!("threads:{n_threads}"));
+        let rounds: usize = if n >= 20_000 { 40 } else if args.thorough() { 3000 } else { 800 };
+        // single-threaded reference: (op, swapped) -> result
+        let call = |op: usize, sw: bool, x: &roto::List<u64>, y: &roto::List<u64>| -> u64 {
+            let (a, b) = if sw { (y.clone(), x.clone()) } else { (x.clone(), y.clone()) };
+            match op {
+                0 => cc.call(a, b),
+                1 => eq.call(a, b) as u64,
+                2 => has.call(a, b) as u64,
+                3 => plus.call(a, b),
+                _ => eq.call(a.clone(), a) as u64 + 10,
+            }
+        };
+        let mut reference = [[0u64; 2]; 5];
+        for (op, r) in reference.iter_mut().enumerate() {
+            for sw in [false, true] {
+                r[sw as usize] = call(op, sw, &x, &y);
+            }
+        }
+        if with_delays {
+            roto::verif::set_list_hook(Some(delay_hook));
+        }
+        let (tx, rx) = mpsc::channel::<Result<u64, String>>();
+        let start = Arc::new(std::sync::Barrier::new(n_threads));
+        let progress = Arc::new(AtomicU64::new(0));
+        for t in 0..n_threads {
+            let progress = progress.clone();
+            let (cc, eq, has, plus) = (cc.clone(), eq.clone(), has.clone(), plus.clone());
+            let (x, y) = (x.clone(), y.clone());
+            let tx = tx.clone();
+            let start = start.clone();
+            let seed = rng.next();
+            std::thread::spawn(move || {
+                let mut r = Rng::new(seed);
+                start.wait();
+                let mut calls = 0u64;
+                for round in 0..rounds {
+                    let op = r.usize(5);
+                    // neighbouring threads prefer opposite argument orders
+                    let sw = if r.chance(3, 4) { t % 2 == 1 } else { r.bool() };
+                    let (a, b) = if sw { (y.clone(), x.clone()) } else { (x.clone(), y.clone()) };
+                    let got = match op {
+                        0 => cc.call(a, b),
+                        1 => eq.call(a, b) as u64,
+                        2 => has.call(a, b) as u64,
+                        3 => plus.call(a, b),
+                        _ => eq.call(a.clone(), a) as u64 + 10,
+                    };
+                    calls += 1;
+                    progress.fetch_add(1, Ordering::Relaxed);
+                    if got != reference[op][sw as usize] {
+                        let _ = tx.send(Err(format!(
+                            "thread {t} round {round} op {op} swapped {sw}: got {got} single-threaded {}",
+                            reference[op][sw as usize]
+                        )));
+                        return;
+                    }
+                }
+                let _ = tx.send(Ok(calls));
+            });
+        }
+        drop(tx);
+        // The threads are not joined: if they wait for each other forever that is the finding.
+        // "Forever" is decided on progress, not on a deadline: no call completes on any thread
+        // for 15 s while threads are unfinished (one call takes far below a millisecond per
+        // 10^4 elements). A run that is merely slow keeps making progress; it is given up
+        // as inconclusive after 180 s.
+        let t0 = std::time::Instant::now();
+        let mut last_progress = (progress.load(Ordering::Relaxed), std::time::Instant::now());
+        let mut done = 0;
+        let mut total = 0u64;
+        while done < n_threads {
+            match rx.recv_timeout(std::time::Duration::from_millis(500)) {
+                Ok(Ok(c)) => {
+                    done += 1;
+                    total += c;
+                }
+                Ok(Err(m)) => {
+                    done += 1;
+                    out.viol("concurrent:shared-lists-result-differs", m, J::obj().set("threads", n_threads as u64).set("len", n as u64));
+                }
+                Err(mpsc::RecvTimeoutError::Timeout) => {
+                    let p = progress.load(Ordering::Relaxed);
+                    if p != last_progress.0 {
+                        last_progress = (p, std::time::Instant::now());
+                    } else if last_progress.1.elapsed().as_secs() >= 15 {
+                        out.viol(
+                            "concurrent:shared-lists-calls-never-return",
+                            format!(
+                                "{} of {n_threads} threads calling cc/eq/has/plus on two shared lists (len {n}) in both argument orders are stuck: no call returned on any thread for 15 s after {p} completed calls: the calls wait for each other",
+                                n_threads - done
+                            ),
+                            J::obj().set("threads", n_threads as u64).set("len", n as u64).set("injected_delays", with_delays).set("calls_completed", p),
+                        );
+                        break;
+                    }
+                    if t0.elapsed().as_secs() >= 180 {
+                        out.skipped = Some("shared-lists:slow".into());
+                        break;
+                    }
+                }
+                Err(mpsc::RecvTimeoutError::Disconnected) => {
+                    out.viol("concurrent:thread-panicked", "a worker thread of the shared-lists scenario ended without a result", J::Null);
+                    break;
+                }
+            }
+        }
+        roto::verif::set_list_hook(None);
+        out.evals = total;
+        out.events = total;
+        out.count("concurrent_calls", total);
+        out.count("shared_list_calls", total);
+        out.nontrivial = total > 0;
+        out
+    }
+}
+
 impl Family for Concurrent {
     fn n_cases(&self, args: &Args) -> u64 {
         if args.thorough() { 6_000 } else { 400 }
     }
 
-    fn describe(&mut self, _k: u64, rng: &mut Rng, _args: &Args) -> Option<J> {
+    fn describe(&mut self, k: u64, rng: &mut Rng, _args: &Args) -> Option<J> {
+        if k % 8 == 7 {
+            return Some(J::obj().set("profile", "shared-lists").set("source", SHARED_SRC));
+        }
         let (_, _, src, name) = gen_program(rng);
         Some(J::obj().set("profile", name).set("source", src))
     }
 
-    fn run(&mut self, _k: u64, rng: &mut Rng, args: &Args) -> CaseOut {
+    fn run(&mut self, k: u64, rng: &mut Rng, args: &Args) -> CaseOut {
+        if k % 8 == 7 {
+            return self.shared_lists(rng, args);
+        }
         let mut out = CaseOut::default();
         let (prog, tags, src, profile) = gen_program(rng);
         out.hash = hash_str(&src);
